@@ -172,10 +172,20 @@ class Bench:
             real = slice_of(base, sel)
         except Exception as exc:        # selector rejected by the library
             if cells is not None:
-                raise HarnessError(f"selector {sel!r} rejected by library: {exc!r}")
+                # a documented way of addressing wells that the library refuses (never seen on the unchanged tree): the
+                # operation cannot be asked for at all.  Reported, the event is skipped, and the history goes on - so that
+                # the other oracles still see what the same library version does with the selectors it does accept.
+                for prop in ('C07', 'C03'):
+                    self.V(prop, 'selector_rejected', ('select', sel.get('k')),
+                           f"{name}[{sel!r}] on a {shape[0]}x{shape[1]} plate raised {type(exc).__name__}: {exc}; the documented selection is {cells[:6]}")
+                self.stats['selector_rejected_by_library'] += 1
             return None
         if cells is None:
-            raise HarnessError(f"selector {sel!r} accepted by library but refused by model")
+            for prop in ('C07', 'C03'):
+                self.V(prop, 'invalid_selector_accepted', ('select', sel.get('k')),
+                       f"{name}[{sel!r}] on a {shape[0]}x{shape[1]} plate is not a documented selection but the library returned a slice")
+            self.stats['invalid_selector_accepted_by_library'] += 1
+            return None
         return Operand(name, v, kind, base, real, sel, cells, sshape)
 
     def call(self, fn):
